@@ -131,7 +131,7 @@ class C10(Property):
                   "at the start of Write, close(done)+close(output) one step); correspondence only on generated forced "
                   "schedules; quiescence read from runtime.Stack; runs in which Go's select had several ready cases are "
                   "compared on the property only (counted as racy).")
-    rule = ("cases: fixed corpus (~145) first; generated: 45 % free shuffles, 35 % window families, 11 % stragglers, 5 % held caller, 4 % AtomicError histories (window families = 11 setups: a library-internal sequence of core/mr held open by a stalled "
+    rule = ("cases: fixed corpus (~200) first; generated: 45 % free shuffles, 28 % window families, 11 % stragglers, 5 % held caller, 4 % AtomicError histories, 7 % early-returning reducers followed by faults (window families = 11 setups: a library-internal sequence of core/mr held open by a stalled "
             "callback, the other callbacks acting inside it); API in {MapReduce, MapReduceVoid, MapReduceChan, ForEach, Finish, FinishVoid}; "
             "WithWorkers absent / negative / 0 / 1..4 / given twice; context passed / absent / already cancelled / already expired; items "
             "0..workers+3, fan-out 0..3; 0..4 faults (cancel(nil) / cancel(err) with plain, sentinel (ErrCancelWithNil, ErrReduceNoOutput, "
@@ -271,7 +271,7 @@ class C10(Property):
              "red": [["cancel", 5]], "events": [["g"], ["g"], ["m", 1], ["m", 1], ["r"]]},
             {"api": "mr", "workers": 1, "gen": [["send", 1]], "maps": {"1": [["write", 10], ["write", 11], ["write", 12]]},
              "red": [], "events": [["g"], ["g"], ["m", 1], ["m", 1], ["c"], ["r"]]},
-        ] + self._value_corpus() + ([
+        ] + self._early_return_corpus() + self._value_corpus() + ([
             # F29: an error that is ErrReduceNoOutput passed to cancel under MapReduceVoid / returned by a Finish function
             {"api": "void", "workers": 1, "gen": [["send", 1]], "maps": {"1": [["cancel", 1002]]}, "red": [["recvall"]], "events": []},
             {"api": "finish", "workers": 2, "gen": [["send", 0], ["send", 1]], "maps": {"0": [["cancel", 1005]], "1": []}, "red": [], "events": []},
@@ -280,6 +280,92 @@ class C10(Property):
             {"api": "void", "workers": 1, "gen": [], "maps": {}, "red": [["cancel", 1005]], "events": []},
             {"api": "void", "workers": 2, "gen": [["send", 1], ["send", 2]], "maps": {"1": [], "2": [["cancel", 1005]]}, "red": [["recvall"]], "events": []},
         ] if getattr(self, "void_nooutput", False) else [])
+
+    def _early_return_corpus(self):
+        """Addendum classes 5 / 18 by construction: a reducer that RETURNS EARLY - before its pipe is closed, without ranging to the
+        end (returns at once / after one receive / after its single Write) - for every API with a user reducer (MapReduce,
+        MapReduceChan, MapReduceVoid: for the Void adapter, what it does after the user's reducer returned is anchored code), then,
+        while the call is still running, a fault in a still-running mapper or the generator: cancel(err) / cancel(nil) / cancel(typed
+        nil) / panic / the context ends / a generator panic.  The reducer's return must not decide the result (seeded change
+        C10-11: the Void adapter wrote a placeholder once the void reducer had returned; a later cancel was lost, the call
+        returned nil).  Finish / FinishVoid / ForEach have no user reducer: their early-returning functions are mappers (a function
+        returns, another one fails later)."""
+        res = []
+        faults = [("m", ["cancel", 5]), ("m", ["cancelnil"]), ("m", ["cancel", 1011]), ("m", ["panic", 9]), ("c", None), ("g", ["panic", 3])]
+        for api in ("void", "mr", "chan"):
+            for red in ([], [["recv"]], [["recv"], ["write", 777]]):
+                if api == "void":
+                    red = [a for a in red if a[0] != "write"]
+                    if red == [["recv"]] and any(r["api"] == "void" and r["red"] == red for r in res):
+                        continue
+                for who, act in faults:
+                    if who == "g" and api == "chan":
+                        continue
+                    gen = [["send", 1], ["send", 2]] + ([act] if who == "g" else [])
+                    maps = {"1": [["write", 10]], "2": [act] if who == "m" else []}
+                    # both items handed over (the generator stays parked before its next action), mapper 1 writes and returns,
+                    # the reducer runs its whole script and RETURNS, and only then the fault
+                    ev = [["g"], ["g"], ["m", 1], ["m", 1]] + [["r"]] * (len(red) + 1)
+                    ev += {"m": [["m", 2]], "c": [["c"]], "g": [["g"]]}[who]
+                    res.append({"api": api, "workers": 2, "gen": gen, "maps": maps, "red": copy.deepcopy(red), "events": ev})
+        # the same with the reducer returning before anything was mapped, and a fault of the only mapper
+        for api in ("void", "mr"):
+            for act in (["cancel", 6], ["panic", 8]):
+                res.append({"api": api, "workers": 1, "gen": [["send", 1]], "maps": {"1": [act]}, "red": [],
+                            "events": [["r"], ["g"], ["m", 1]]})
+        # Finish: a function returns nil (early), another fails / panics later; FinishVoid / ForEach: one returns, another panics later
+        res += [
+            {"api": "finish", "workers": 3, "gen": [["send", 0], ["send", 1], ["send", 2]], "maps": {"0": [], "1": [["cancel", 7]], "2": [["cancel", 1011]]},
+             "red": [], "events": [["m", 1]]},
+            {"api": "finish", "workers": 2, "gen": [["send", 0], ["send", 1]], "maps": {"0": [], "1": [["panic", 4]]}, "red": [], "events": []},
+            {"api": "finishvoid", "workers": 2, "gen": [["send", 0], ["send", 1]], "maps": {"0": [], "1": [["panic", 4]]}, "red": [], "events": []},
+            {"api": "foreach", "workers": 2, "gen": [["send", 1], ["send", 2]], "maps": {"1": [], "2": [["panic", 4]]}, "red": [],
+             "events": [["g"], ["g"], ["m", 1], ["m", 2]]},
+        ]
+        return res
+
+    def _early_return(self, rng):
+        """Generated counterpart of _early_return_corpus: the reducer returns before its pipe is closed (after 0..2 receives, maybe
+        after its Write), released early; then 1..2 faults in still-running mappers / the generator / the context, shuffled with the
+        remaining releases."""
+        api = rng.choice(["void", "void", "mr", "chan"])
+        n = rng.randint(2, 4)
+        w = rng.choice([n, n, max(1, n - 1), n + 1])
+        items = rng.sample(range(1, 40), n)
+        gen = [["send", x] for x in items]
+        fan = rng.randint(0, 2)
+        maps = {str(x): [["write", 100 * x + j] for j in range(fan)] for x in items}
+        red = [["recv"]] * rng.randint(0, 2) + ([["write", 777]] if api != "void" and rng.random() < 0.5 else [])
+        red = copy.deepcopy(red)
+        alive = items[:min(w, n)]
+        pre = [["g"]] * len(alive)
+        first = alive[0]
+        pre += [["m", first]] * (len(maps[str(first)]) + 1) if rng.random() < 0.7 else []
+        pre += [["r"]] * (len(red) + 1)
+        late = []
+        for _ in range(rng.randint(1, 2)):
+            kind = rng.choice(["cancel", "cancel", "cancelnil", "panic", "ctx", "genpanic"])
+            if kind == "ctx":
+                late.append(["c"])
+            elif kind == "genpanic" and api != "chan":
+                gen.insert(rng.randint(len(alive), len(gen)), ["panic", rng.randint(1, 9)])
+            else:
+                act = {"cancel": ["cancel", rng.randint(1, 9)], "cancelnil": ["cancelnil"], "panic": ["panic", rng.randint(1, 9)],
+                       "genpanic": ["panic", rng.randint(1, 9)]}[kind]
+                cands = [x for x in alive if x != first] or alive
+                sc = maps[str(rng.choice(cands))]
+                sc.insert(rng.randint(0, len(sc)), act)
+        toks = [["g"]] * (len(gen) + 1 - len(alive))
+        for x in items:
+            toks += [["m", x]] * (len(maps[str(x)]) + 1)
+        for t in pre:
+            if t in toks:
+                toks.remove(t)
+        toks += late
+        rng.shuffle(toks)
+        if rng.random() < 0.3:
+            toks = toks[:rng.randint(0, len(toks))]
+        return {"api": api, "workers": w, "gen": gen, "maps": maps, "red": red, "events": pre + toks, "family": "early_return"}
 
     def _value_corpus(self):
         """Addendum class 1 (sentinel VALUES), by construction: every error value of the vocabulary - typed nils, non-nil
@@ -396,6 +482,8 @@ class C10(Property):
                 return self._held_caller(rng)
             if r < 0.09:
                 return self._atomic(rng)
+            if r < 0.16:
+                return self._early_return(rng)
             return self._family(rng) if r < 0.44 else (self._straggler(rng) if r < 0.55 else self._one(rng))
         return [self._variants(rng, pick()) for _ in range(n)]
 
